@@ -49,6 +49,13 @@ def _gen_new(rng, wp, kind, base_x=None):
     if kind == 'disc':
         return _backend._gen_pw(rng, wp, 'disc')
     arrs = _backend._gen_pw(rng, wp, kind)
+    if base_x is not None and len(base_x) > 2 and rng.random() < 0.12:
+        # same number of pieces, every breakpoint nearly (not exactly) where the other function has one
+        x = gen.jitter(rng, wp, base_x, keep_ends=True)
+        if len(x) == len(base_x):
+            n = len(x) - 1
+            vals = lambda: [rng.randrange(-32, 33) / 8.0 for _ in range(n)]
+            return [x, vals()] if kind == 'pwc' else [x, vals(), vals()]
     if base_x is not None and rng.random() < 0.5:
         # share all or some interior breakpoints with an existing function
         t0, t1 = gen.edges(wp)
@@ -76,6 +83,8 @@ def generate(prop, rng, tier):
             if rng.random() < 0.3:
                 ntr = rng.choice([2, 2, 3, 4])
                 trains = [gen.gen_spikes(rng, wp) for _ in range(ntr)]
+                if rng.random() < 0.15:
+                    trains[-1] = gen.jitter(rng, wp, trains[0])
                 fam = {'pwc': 'isi', 'pwl': 'spike', 'disc': rng.choice(['sync', 'order'])}[kind]
                 ops.append({'op': 'prof', 'family': fam, 'trains': trains,
                             'kw': gen.gen_kw(rng, wp, fam, allow_auto=False)})
@@ -284,7 +293,11 @@ def execute(world, run, prop=None):
                 continue
             elif name == 'copy':
                 i = op['i'] % len(live)
-                c = live[i].obj.copy()
+                try:
+                    c = live[i].obj.copy()
+                except Exception as e:
+                    rec.violate(P + '.copy_equal', {'op': op, 'why': "copy() raised %r" % e}, facts(op))
+                    continue
                 nl = Live(c, live[i].model.copy(), kind)
                 rec.compared += 1
                 why = check_against_model(nl, t0, t1)
@@ -295,7 +308,10 @@ def execute(world, run, prop=None):
                     # the caller writes into the copy's arrays: the original must not notice
                     for a in _arrays(c, kind)[1:]:
                         if len(a):
-                            a[len(a) // 2] = a[len(a) // 2] + 1.0
+                            try:
+                                a[len(a) // 2] = a[len(a) // 2] + 1.0
+                            except Exception:
+                                pass
                     nl.model = _model_from(c, kind)
                 live.append(nl)
                 rec.log(('copy', i, digest(norm(c))))
@@ -344,12 +360,16 @@ def execute(world, run, prop=None):
                 i = op['i'] % len(live)
                 a = live[i]
                 xb = np.asarray(a.obj.x).tobytes()
+                err = None
                 with captured_stdout():
-                    a.obj.mul_scalar(op['fac'])
+                    try:
+                        a.obj.mul_scalar(op['fac'])
+                    except Exception as e:
+                        err = e
                 a.model.scale(op['fac'])
                 touched = [i]
                 rec.compared += 1
-                why = check_against_model(a, t0, t1)
+                why = ("mul_scalar raised %r" % err) if err is not None else check_against_model(a, t0, t1)
                 if why is None and np.asarray(a.obj.x).tobytes() != xb:
                     why = "mul_scalar changed the time axis"
                 if why:
@@ -589,3 +609,15 @@ def simplify(run):
             r = json.loads(json.dumps(run))
             r['ops'][oi]['scribble'] = False
             yield r
+
+
+def vary(run, rng):
+    ops = run['ops']
+    if not ops or rng.random() < 0.4:
+        return
+    for _ in range(rng.randint(1, 3)):
+        k = rng.randrange(len(ops))
+        o = json.loads(json.dumps(ops[k]))
+        if o['op'] in ('new', 'prof', 'drop'):
+            continue
+        ops.insert(rng.randint(k + 1, len(ops)), o)
